@@ -121,8 +121,8 @@ P["C10"] = dict(cat="proof",
          "Tie: ten recognizers x five decomposition strategies on transformed presentations of random, structured and large (up to ~40x40) matrices.",
     note=NOTE_COMMON + "also proved: regularity and balancedness under zero/unit/duplicated lines, regular submatrices / transposition / 2-sums, "
          "1-sums for TU, regular, balanced, SP (OneSum.v, RegClosure.v, BalClosure.v), and graphicness - as defined by certificates - under "
-         "permutation, reducible lines and submatrices (GraphicClosure.v). Not formalised: the signed (network) analogue unless NetworkClosure.v "
-         "is listed in DESIGN.md, and Delta-/Y-/3-sums; 'Camion-signed' is compared only when a presentation is reported TU.",
+         "permutation, reducible lines and submatrices (GraphicClosure.v) and network matrices under permutation, scaling, reducible lines and "
+         "submatrices (NetworkClosure.v). Not formalised: Delta-/Y-/3-sums; 'Camion-signed' is compared only when a presentation is reported TU.",
     tech="Coq closure theorems for the oracles + Coq-checked transform relation + metamorphic comparison of verdicts", ref="DESIGN.md C10")
 P["C11"] = dict(cat="proof",
     text="Coq: model of the LIFO scratch-stack allocator of env.c (_CMRallocStack/_CMRfreeStack/CMRgetStackUsage): invariant, alloc;free "
